@@ -63,16 +63,14 @@ def assembly(chk):
     it = src(lp.iter).replace(" ", "")
     ok_it = it == "enumerate(range(i,min(i+self._rspline.degree+1,self._rspline.nbasis)),self._rspline.degree)" and \
         src(lp.target).replace(" ", "") in ("(j,s_j)", "j,s_j")
-    chk.ob("F4-assembly-indexing", lp, src(lp.iter)[:100], ok_it,
-           "entry j of the diagonal list is the diagonal of offset j-degree, i.e. column s_j = i + (j - degree) of row i"
-           if ok_it else "assembly loop no longer enumerates (diagonal index, column) from the main diagonal upwards",
-           file=U.POISSON, func=f"{CLS}.__init__")
+    chk.pat("F4-assembly-indexing", lp, src(lp.iter)[:100], ok_it,
+            "entry j of the diagonal list is the diagonal of offset j-degree, i.e. column s_j = i + (j - degree) of row i",
+            file=U.POISSON, func=f"{CLS}.__init__")
     outer = parent(lp)
     ok_sp = isinstance(outer, ast.For) and any(isinstance(s, ast.Assign) and src(s.targets[0]) == "spline" and
                                                src(s.value) == "self._rspline[i]" for s in outer.body)
-    chk.ob("F4-assembly-indexing", outer, "spline = self._rspline[i]", ok_sp,
-           "`spline` is basis function i (the row)" if ok_sp else "`spline` is no longer basis function i", file=U.POISSON,
-           func=f"{CLS}.__init__")
+    chk.pat("F4-assembly-indexing", outer, "spline = self._rspline[i]", ok_sp, "`spline` is basis function i (the row)",
+            file=U.POISSON, func=f"{CLS}.__init__")
     UP = "j"
     LOW = "self._rspline.degree * 2 - j"
     spec = {
@@ -131,27 +129,32 @@ def assembly(chk):
     s = src(fn)
     for nm in ("massCoeffs", "k2PhiPsiCoeffs", "PhiPsiCoeffs"):
         ok = f"{nm}.extend({nm}[-2::-1])" in s
-        chk.ob("F4-symmetric-storage", fn, f"{nm}.extend({nm}[-2::-1])", ok,
-               "lower diagonals alias the upper ones (symmetric form filled once)" if ok else
-               "lower diagonals of the symmetric form are no longer tied to the upper ones", file=U.POISSON, func=f"{CLS}.__init__")
+        chk.pat("F4-symmetric-storage", fn, f"{nm}.extend({nm}[-2::-1])", ok,
+                "lower diagonals alias the upper ones (symmetric form filled once)", file=U.POISSON, func=f"{CLS}.__init__")
     # quadrature points / half width
     okq = "multFactor = (self._rspline.breaks[1] - self._rspline.breaks[0]) * 0.5" in s and \
         "startPoints = (self._rspline.breaks[1:] + self._rspline.breaks[:-1]) * 0.5" in s and \
         "self._evalPts = startPoints[:, None] + points[None, :] * multFactor" in s and \
         "points, self._weights = leggauss(n)" in s
-    chk.ob("F4-quadrature-points", fn, "Gauss-Legendre points mapped to the cells", okq,
-           "points = cell midpoint + reference point x half width, weights x half width" if okq else
-           "mapping of the Gauss-Legendre rule to the cells changed", file=U.POISSON, func=f"{CLS}.__init__")
+    chk.pat("F4-quadrature-points", fn, "Gauss-Legendre points mapped to the cells", okq,
+            "points = cell midpoint + reference point x half width, weights x half width", file=U.POISSON, func=f"{CLS}.__init__")
     # operator composition
     okc = "self._stiffnessMatrix = self._dPhidPsi + self._dPhiPsi + self._PhiPsi" in s
-    chk.ob("F4-operator", fn, "self._stiffnessMatrix", okc, "theta-independent operator = dPhidPsi + dPhiPsi + PhiPsi" if okc else
-           "theta-independent operator is not dPhidPsi + dPhiPsi + PhiPsi", file=U.POISSON, func=f"{CLS}.__init__")
+    sm_def = [n for n in ast.walk(fn) if isinstance(n, ast.Assign) and src(n.targets[0]) == "self._stiffnessMatrix"]
+    bad = None
+    if sm_def and not okc:
+        terms = set(src(sm_def[0].value).replace(" ", "").split("+"))
+        if terms and terms <= {"self._dPhidPsi", "self._dPhiPsi", "self._PhiPsi", "self._k2PhiPsi", "self._massMatrix"} \
+                and terms != {"self._dPhidPsi", "self._dPhiPsi", "self._PhiPsi"}:
+            bad = f"theta-independent operator is the sum of {sorted(terms)}, not dPhidPsi + dPhiPsi + PhiPsi"
+    chk.pat("F4-operator", fn, "self._stiffnessMatrix", okc, "theta-independent operator = dPhidPsi + dPhiPsi + PhiPsi", bad,
+            file=U.POISSON, func=f"{CLS}.__init__")
     # diagonals -> matrices with the same offsets
     okd = all(f"sparse.diags({nm}, diag_range, shape, 'csc')" in s.replace("\n", " ").replace("  ", " ")
               or f"sparse.diags({nm}, diag_range," in s for nm in ("massCoeffs", "k2PhiPsiCoeffs", "PhiPsiCoeffs", "dPhidPsiCoeffs", "dPhiPsiCoeffs")) \
         and "diag_range = range(-d, d + 1)" in s and "d = self._rspline.degree" in s
-    chk.ob("F4-operator", fn, "sparse.diags(..., range(-d, d+1))", okd, "diagonal j has offset j - degree", file=U.POISSON,
-           func=f"{CLS}.__init__")
+    chk.pat("F4-operator", fn, "sparse.diags(..., range(-d, d+1))", okd, "diagonal j has offset j - degree", file=U.POISSON,
+            func=f"{CLS}.__init__")
 
 
 def per_mode(chk):
@@ -160,15 +163,19 @@ def per_mode(chk):
     sq = [n for n in fn_init.body if isinstance(n, ast.AugAssign) and src(n.target) == "self._mVals" and isinstance(n.op, ast.Mult)]
     uses = [n for n in fn_init.body if isinstance(n, ast.Assign) and src(n.targets[0]) in ("self._coeff_range", "self._stiffness_range")]
     ok = len(sq) == 1 and len(uses) == 2 and all(u.lineno < sq[0].lineno for u in uses) and src(sq[0].value) == "self._mVals"
-    chk.ob("F4-mode-bookkeeping", sq[0] if sq else fn_init, "self._mVals *= self._mVals", ok,
-           "boundary-condition membership is decided on the mode numbers m, then m is squared exactly once" if ok else
-           "mode numbers are squared before (or not exactly once after) the per-mode boundary tables are built",
-           file=U.POISSON, func=f"{CLS}.__init__")
+    bad = None
+    if len(sq) == 1 and len(uses) == 2 and any(u.lineno > sq[0].lineno for u in uses):
+        bad = "mode numbers are squared before the per-mode boundary tables are built: Neumann membership is tested on m^2"
+    if len(sq) > 1:
+        bad = "mode numbers are squared more than once"
+    chk.pat("F4-mode-bookkeeping", sq[0] if sq else fn_init, "self._mVals *= self._mVals", ok,
+            "boundary-condition membership is decided on the mode numbers m, then m is squared exactly once", bad,
+            file=U.POISSON, func=f"{CLS}.__init__")
     for u in uses:
         v = src(u.value).replace(" ", "").replace("\n", "")
         ok_l = "iinlNeumannIdx" in v and "iinuNeumannIdx" in v and "foriinself._mVals" in v
-        chk.ob("F4-mode-bookkeeping", u, src(u.targets[0]), ok_l, "one slice per mode, lower/upper Neumann membership decided per mode",
-               file=U.POISSON, func=f"{CLS}.__init__")
+        chk.pat("F4-mode-bookkeeping", u, src(u.targets[0]), ok_l, "one slice per mode, lower/upper Neumann membership decided per mode",
+                file=U.POISSON, func=f"{CLS}.__init__")
     # per-mode operator and Dirichlet reset inside the loop, before the solve
     for cls, m, callee in ((CLS, "solveEquation", "_solveMode"), (CLS, "solveEquationForFunction", "_solveModeFunc"),
                            ("QuasiNeutralitySolver", "solveEquation", "_solveMode")):
@@ -185,35 +192,47 @@ def per_mode(chk):
             if isinstance(s_, ast.Assign) and src(s_.targets[0]) in ("self._coeffs[0]", "self._coeffs[-1]") and src(s_.value) == "0":
                 resets[src(s_.targets[0])] = k
         ok = bool(pos_call) and set(resets) == {"self._coeffs[0]", "self._coeffs[-1]"} and all(v < pos_call[0] for v in resets.values())
-        chk.ob("F4-dirichlet-reset", lp, f"{cls}.{m}: self._coeffs[0] = self._coeffs[-1] = 0 before each mode", ok,
-               "both boundary coefficients are zeroed inside the per-mode loop before the solve, so a Neumann mode's boundary "
-               "value cannot leak into the next Dirichlet mode" if ok else
-               "the boundary coefficients are not reset for every mode before the solve: the value written by a Neumann mode "
-               "leaks into the following Dirichlet modes (modes no longer independent, Dirichlet value non-zero)",
-               file=U.POISSON, func=f"{cls}.{m}")
+        bad = None
+        if not ok and pos_call:
+            outside = [n for n in ast.walk(fn) if isinstance(n, ast.Assign) and src(n.targets[0]) in ("self._coeffs[0]", "self._coeffs[-1]")
+                       and src(n.value) == "0" and not any(n is x for x in ast.walk(lp))]
+            anyreset = any("_coeffs[0]" in src(n) or "_coeffs[-1]" in src(n) or "_coeffs[" in src(n) for n in ast.walk(lp)
+                           if isinstance(n, (ast.Assign, ast.AugAssign)))
+            if outside or not anyreset or (resets and any(v > pos_call[0] for v in resets.values())):
+                bad = ("the boundary coefficients are not reset for every mode before the solve: the value written by a Neumann mode "
+                       "leaks into the following Dirichlet modes (modes no longer independent, Dirichlet value non-zero)")
+        chk.pat("F4-dirichlet-reset", lp, f"{cls}.{m}: self._coeffs[0] = self._coeffs[-1] = 0 before each mode", ok,
+                "both boundary coefficients are zeroed inside the per-mode loop before the solve, so a Neumann mode's boundary "
+                "value cannot leak into the next Dirichlet mode", bad, file=U.POISSON, func=f"{cls}.{m}")
         # operator for mode I
         txt = src(lp).replace(" ", "").replace("\n", "")
         want = "(self._stiffnessMatrix-self._mVals[I]*self._k2PhiPsi)[self._stiffness_range[I],self._stiffness_range[I]]"
         oko = want in txt and src(lp.iter).replace(" ", "") in ("enumerate(rho.getGlobalIdxVals(0))", "enumerate(phi.getGlobalIdxVals(0))") \
             and src(lp.target).replace(" ", "") in ("(i,I)", "i,I")
-        chk.ob("F4-mode-operator", lp, f"{cls}.{m}: operator of mode I", oko,
-               "operator = (dPhidPsi + dPhiPsi + PhiPsi) - m_I^2 k2, restricted to the unknowns of mode I" if oko else
-               "per-mode operator is not (stiffness - m^2 k2)[range_I, range_I] with the global mode index I",
-               file=U.POISSON, func=f"{cls}.{m}")
+        bad = None
+        if not oko and isinstance(lp.target, ast.Tuple) and len(lp.target.elts) == 2:
+            gi = src(lp.target.elts[1])
+            wrong = [src(n) for n in ast.walk(lp) if isinstance(n, ast.Subscript) and src(n.value) in ("self._mVals", "self._stiffness_range")
+                     and src(n.slice) != gi]
+            if wrong:
+                bad = f"per-mode tables are looked up with {wrong} instead of the global mode index `{gi}`"
+        chk.pat("F4-mode-operator", lp, f"{cls}.{m}: operator of mode I", oko,
+                "operator = (dPhidPsi + dPhiPsi + PhiPsi) - m_I^2 k2, restricted to the unknowns of mode I", bad,
+                file=U.POISSON, func=f"{cls}.{m}")
     # _solveMode: rhs = mass . coeffs(rho), unknowns written into the mode's coefficient range, evaluation of full coeffs
     sm = chk.func(U.POISSON, f"{CLS}._solveMode")
     t = src(sm).replace(" ", "").replace("\n", "")
     ok = "massMat=self._massMatrix[self._stiffness_range[I],:]" in t and "coeffs=self._coeffs[self._coeff_range[I]]" in t and \
         "coeffs[:]=spsolve(stiffnessMatrix,massMat.dot(self._spline.coeffs))" in t and \
         "self._interpolator.compute_interpolant(rho.get1DSlice(i,j),self._spline)" in t
-    chk.ob("F4-mode-solve", sm, "_solveMode: coeffs[range_I] = S^-1 M[range_I,:] c(rho)", ok,
-           "right-hand side is the mass matrix applied to the spline coefficients of rho; the solution fills the mode's unknowns, "
-           "Dirichlet entries keep their zero" if ok else "solve step changed", file=U.POISSON, func=f"{CLS}._solveMode")
+    chk.pat("F4-mode-solve", sm, "_solveMode: coeffs[range_I] = S^-1 M[range_I,:] c(rho)", ok,
+            "right-hand side is the mass matrix applied to the spline coefficients of rho; the solution fills the mode's unknowns, "
+            "Dirichlet entries keep their zero", file=U.POISSON, func=f"{CLS}._solveMode")
     ok2 = "self._real_spline.coeffs[:]=np.real(self._coeffs)" in t and "self._real_spline.coeffs[:]=np.imag(self._coeffs)" in t and \
         "phi.get1DSlice(i,j)[:]=self._realMem+1j*self._imagMem" in t and t.count("self._real_spline.eval_vector(phi.getCoordVals(2),") == 2
-    chk.ob("F4-mode-solve", sm, "_solveMode: evaluation at the radial nodes", ok2,
-           "real and imaginary parts are evaluated from the full coefficient vector at the grid's r coordinates and recombined"
-           if ok2 else "evaluation of the solution changed", file=U.POISSON, func=f"{CLS}._solveMode")
+    chk.pat("F4-mode-solve", sm, "_solveMode: evaluation at the radial nodes", ok2,
+            "real and imaginary parts are evaluated from the full coefficient vector at the grid's r coordinates and recombined",
+            file=U.POISSON, func=f"{CLS}._solveMode")
 
 
 def refusal(chk):
@@ -228,9 +247,12 @@ def refusal(chk):
             ok = True
     pd = [n for n in ast.walk(fn) if isinstance(n, ast.Assign) and src(n.targets[0]) == "poorlyDefined"]
     okp = bool(pd) and src(pd[0].value).replace(" ", "") == "[bforbinlNeumannIdxifbinuNeumannIdx]"
-    chk.ob("F4-neumann-refusal", fn, "raise ValueError for modes Neumann at both ends with C == 0", ok and okp,
-           "modes with Neumann conditions on both boundaries are refused when the reaction term vanishes, before assembly"
-           if ok and okp else "the pure-Neumann refusal no longer dominates the assembly", file=U.POISSON, func=f"{CLS}.__init__")
+    bad = None
+    if not raises:
+        bad = "no refusal of ill-posed pure-Neumann modes is left in the constructor"
+    chk.pat("F4-neumann-refusal", fn, "raise ValueError for modes Neumann at both ends with C == 0", ok and okp,
+            "modes with Neumann conditions on both boundaries are refused when the reaction term vanishes, before assembly", bad,
+            file=U.POISSON, func=f"{CLS}.__init__")
 
 
 def run(chk):
